@@ -34,17 +34,19 @@ type scenario struct {
 }
 
 type scenObs struct {
-	Crashed    bool     `json:"crashed"`
-	CrashMsg   string   `json:"crash_msg,omitempty"`
-	Restarts   []int    `json:"restarts"` // per Restart call: 0 nil, 1 error, 2 never returned
-	Loads      int      `json:"loads"`    // executions of loadTasks (its first statement)
-	Overlap    bool     `json:"overlap"`  // a load / NewTask statement arrived while a task of the previous generation was held inside a step
-	FinalPairs []string `json:"final_pairs"`
-	WantPairs  []string `json:"want_pairs"`
-	FinalBad   bool     `json:"final_bad"` // the configuration stored last does not load: no pairs to compare
-	StoreN     []int    `json:"store_n"`   // per store op: number of tasks the stored configuration yields, -1 = it does not load
-	Notes      []string `json:"notes,omitempty"`
-	Incomplete bool     `json:"incomplete,omitempty"` // the child died before reporting (parent fills this in)
+	// direct oracles evaluated at the moment a Restart call returns (see checkReturn)
+	ReturnViolations []string `json:"return_violations,omitempty"`
+	Crashed          bool     `json:"crashed"`
+	CrashMsg         string   `json:"crash_msg,omitempty"`
+	Restarts         []int    `json:"restarts"` // per Restart call: 0 nil, 1 error, 2 never returned
+	Loads            int      `json:"loads"`    // executions of loadTasks (its first statement)
+	Overlap          bool     `json:"overlap"`  // a load / NewTask statement arrived while a task of the previous generation was held inside a step
+	FinalPairs       []string `json:"final_pairs"`
+	WantPairs        []string `json:"want_pairs"`
+	FinalBad         bool     `json:"final_bad"` // the configuration stored last does not load: no pairs to compare
+	StoreN           []int    `json:"store_n"`   // per store op: number of tasks the stored configuration yields, -1 = it does not load
+	Notes            []string `json:"notes,omitempty"`
+	Incomplete       bool     `json:"incomplete,omitempty"` // the child died before reporting (parent fills this in)
 }
 
 const (
@@ -66,6 +68,7 @@ type child struct {
 	blockedTask int
 	blockedLoad int
 	release     chan struct{}
+	epoch       int // number of releases so far
 
 	nGood   int  // database integrations stored so far that load
 	bad     bool // the stored configuration contains the integration that does not load
@@ -132,6 +135,72 @@ func (c *child) store(good bool) error {
 	ig := igSpec{Name: "bad", Enabled: true, Refs: []refSpec{{Name: "nosuch"}}}
 	_, err := c.srv.Exec(`insert into shovel.integrations(name, conf) values ($1,$2)`, ig.Name, igJSON(ig))
 	return err
+}
+
+type restartCall struct {
+	idx       int
+	seq       int // length of the statement log when Restart was called
+	heldTasks int // tasks of the running generation held inside a step at that moment
+	epoch     int // releases so far
+	nGood     int // loading database integrations stored before the call
+}
+
+// checkReturn is the direct oracle of "after a restart completes every task
+// of the previous generation has stopped ... and newly stored integrations are
+// picked up", evaluated in the goroutine that called Restart at the moment the
+// call returns:
+// (a) the tasks that were held inside a step when Restart was called must have
+//
+//	been let go (a release happened) -- they cannot have stopped otherwise;
+//
+// (b) a nil return needs a loadTasks whose first statement executed after the
+//
+//	call, that read every integration stored before the call and no
+//	integration that cannot be loaded (so a Restart called on a stored
+//	configuration with an unknown source reference returns the error).
+func (c *child) checkReturn(call restartCall, err error) {
+	var v []string
+	c.mu.Lock()
+	if call.heldTasks > 0 && c.epoch == call.epoch {
+		v = append(v, fmt.Sprintf("Restart call #%d returned while %d task(s) of the previous generation are still inside a step", call.idx, call.heldTasks))
+	}
+	c.mu.Unlock()
+	if err == nil {
+		good := false
+		nLoads := 0
+		for _, e := range c.srv.Log()[call.seq:] {
+			if !strings.Contains(e.SQL, stmtLoad) || e.Outcome != "ok" {
+				continue
+			}
+			nLoads++
+			var rows strings.Builder
+			for _, r := range e.Rows {
+				for _, x := range r {
+					rows.WriteString(fakepg.FormatValue(x))
+					rows.WriteString("\n")
+				}
+			}
+			txt := strings.ReplaceAll(rows.String(), "\\", "")
+			ok := !strings.Contains(txt, `"nosuch"`)
+			for k := 1; k <= call.nGood && ok; k++ {
+				ok = strings.Contains(txt, fmt.Sprintf(`"dbig%d"`, k))
+			}
+			if ok {
+				good = true
+			}
+		}
+		switch {
+		case nLoads == 0:
+			v = append(v, fmt.Sprintf("Restart call #%d returned nil but no loadTasks ran after it was called: what was stored before the call is not picked up", call.idx))
+		case !good:
+			v = append(v, fmt.Sprintf("Restart call #%d returned nil although every loadTasks since the call read a configuration that cannot be loaded or lacks an integration stored before the call", call.idx))
+		}
+	}
+	if len(v) > 0 {
+		c.mu.Lock()
+		c.obs.ReturnViolations = append(c.obs.ReturnViolations, v...)
+		c.mu.Unlock()
+	}
 }
 
 const longWait = 20 * time.Second
@@ -238,7 +307,15 @@ func (c *child) run(sc scenario) {
 				continue
 			}
 			ch := make(chan int, 1)
+			idx := len(c.obs.Restarts) + len(c.pending)
 			c.pending = append(c.pending, ch)
+			// what is true when Restart is called
+			c.mu.Lock()
+			call := restartCall{idx: idx, seq: c.srv.LogLen(), heldTasks: 0, epoch: c.epoch, nGood: c.nGood}
+			if c.holdTasks {
+				call.heldTasks = c.blockedTask
+			}
+			c.mu.Unlock()
 			go func() {
 				defer func() {
 					if r := recover(); r != nil {
@@ -248,7 +325,9 @@ func (c *child) run(sc scenario) {
 						ch <- 2
 					}
 				}()
-				if err := c.mgr.Restart(); err != nil {
+				err := c.mgr.Restart()
+				c.checkReturn(call, err)
+				if err != nil {
 					ch <- 1
 				} else {
 					ch <- 0
@@ -283,6 +362,7 @@ func (c *child) run(sc scenario) {
 			c.mu.Lock()
 			c.holdTasks, c.holdLoad = false, false
 			c.blockedTask, c.blockedLoad = 0, 0
+			c.epoch++
 			close(c.release)
 			c.release = make(chan struct{})
 			c.mu.Unlock()
@@ -296,6 +376,7 @@ func (c *child) run(sc scenario) {
 		// whatever is still held or pending is let go
 		c.mu.Lock()
 		c.holdTasks, c.holdLoad = false, false
+		c.epoch++
 		close(c.release)
 		c.release = make(chan struct{})
 		c.mu.Unlock()
@@ -494,6 +575,9 @@ func scenCase(sc scenario, obs scenObs, kind string) lib.Case {
 			msgs = append(msgs, fmt.Sprintf("Restart call #%d never returned", i))
 		}
 	}
+	for _, rv := range obs.ReturnViolations {
+		msgs = append(msgs, rv)
+	}
 	if obs.Overlap {
 		msgs = append(msgs, "two runners for one pair / a new generation loaded while a task of the previous one was inside a step: "+strings.Join(obs.Notes, "; "))
 	}
@@ -606,4 +690,84 @@ func genScenario(r *lib.RNG) scenario {
 		}
 	}
 	return sc
+}
+
+// validScenario: the shape the generator produces (and the only one in which
+// the driver's waiting rules are deterministic): one start, hold_load only
+// directly before it, hold_tasks only while a generation with tasks runs and
+// nothing is held or pending, every hold released.
+func validScenario(sc scenario) bool {
+	started, bad, inHold, curN := false, false, false, 0
+	pendingHoldLoad := false
+	for _, o := range sc.Ops {
+		switch o.Op {
+		case "store":
+			bad = !o.Good
+		case "hold_load":
+			if started || pendingHoldLoad || inHold {
+				return false
+			}
+			pendingHoldLoad = true
+		case "start":
+			if started {
+				return false
+			}
+			started = true
+			if pendingHoldLoad {
+				inHold = true
+				pendingHoldLoad = false
+			} else if !bad {
+				curN = 1
+			}
+		case "hold_tasks":
+			if !started || inHold || curN == 0 {
+				return false
+			}
+			inHold = true
+		case "restart":
+			if !started {
+				return false
+			}
+			if !inHold {
+				curN = 0
+				if !bad {
+					curN = 1
+				}
+			}
+		case "release":
+			if !inHold {
+				return false
+			}
+			inHold = false
+			curN = 0
+			if !bad {
+				curN = 1
+			}
+		default:
+			return false
+		}
+	}
+	return started && !inHold && !pendingHoldLoad
+}
+
+// shrinkScenario drops operations one at a time while the scenario stays of
+// the generated shape and the direct oracle still complains.
+func shrinkScenario(sc scenario) (scenario, scenObs, bool) {
+	var best scenObs
+	found := false
+	for changed := true; changed; {
+		changed = false
+		for i := 0; i < len(sc.Ops); i++ {
+			cand := scenario{Ops: append(append([]scenOp{}, sc.Ops[:i]...), sc.Ops[i+1:]...)}
+			if !validScenario(cand) {
+				continue
+			}
+			obs := runChild(cand)
+			if c := scenCase(cand, obs, "shrunk"); !c.OracleOK {
+				sc, best, found, changed = cand, obs, true, true
+				break
+			}
+		}
+	}
+	return sc, best, found
 }
